@@ -241,11 +241,17 @@ def gen_scenario(ctx, tag, kind, imgs, sizes, variant=None):
     r = ctx.rng
     damaged = variant == "damaged"
     ending = None
+    forced = False
     if kind == "comp":
-        name = variant or r.choice(COMPS)
-        mode = r.choice("ccu")
+        forced = bool(variant) and variant.endswith("!")
+        name = (variant or r.choice(COMPS)).rstrip("!")
+        mode = "c" if forced else r.choice("ccu")
         cfg = ""
-        if mode == "c" and r.random() < 0.7:
+        if forced:
+            # a configuration far from the defaults, and (below) level-sensitive data through the copy right after the copy:
+            # a copy hook that re-creates codec state from anything but the original's options compresses differently
+            cfg = {"gzip": " 1 9 -", "xz": " 1 - -", "lzma": " 1 - -", "lz4": " - - 1", "zstd": " 2 - -"}[name]
+        elif mode == "c" and r.random() < 0.7:
             # non-default configuration: the copy must compress with the original's level / window / strategy flags
             level = {"gzip": r.randint(1, 9), "xz": r.randint(0, 6), "lzma": r.randint(0, 6), "lz4": "-", "zstd": r.randint(1, 19)}[name]
             window = r.randint(9, 15) if name == "gzip" else "-"
@@ -337,6 +343,15 @@ def gen_scenario(ctx, tag, kind, imgs, sizes, variant=None):
             for t, tw in (("c", "t2"), ("o", "t1")):
                 i = s.op(t, "read %s 0 40000" % pth); j = s.op(tw, "read %s 0 40000" % pth)
                 s.pairs.append((i, j))
+    if kind != "xwr" and not damaged:
+        # every scenario uses the copy at least once while both objects are alive (then the original)
+        first = hist_ops(1)[0]
+        if forced:
+            first = "blk " + hexs(bytes(r.choice(b"abcd") for _ in range(8000)))
+        for t, tw in (("c", "t2"), ("o", "t1")):
+            i = s.op(t, first); j = s.op(tw, first)
+            s.pairs.append((i, j))
+            s.ctl("views")
     post = hist_ops(r.choice([1, 3, 6, 12]))
     if kind == "xwr":
         post = post + ["flush"] * 2
@@ -854,7 +869,7 @@ def run(ctx):
     scs = []
     plan = []
     for c in COMPS:
-        plan += [("comp", c)] * max(3, per_kind // 4)
+        plan += [("comp", c)] * max(3, per_kind // 4) + [("comp", c + "!")] * (1 if ctx.quick() else 10)
     for kind in ("idtable", "fragtable", "file", "xwr"):
         plan += [(kind, None)] * per_kind
     plan += [("wfile", None)] * (3 if ctx.quick() else 20)
@@ -901,10 +916,16 @@ def run(ctx):
         raise vlib.CheckFailure("no allocation-failure variant could be derived (no successful copy?)")
     fres = run_harness(ctx, harness, fscs)
     ctx.log("%d allocation-failure variants run" % len(fscs))
-    # every injected failure must have made sqfs_copy return NULL (or crash): a `copy ok` means the injection did not bite
-    for f, (hans, hexit) in zip(fscs, fres):
+    # every injected failure made the k-th acquisition inside sqfs_copy fail (the wrapper counted k calls or more in the
+    # successful run): a hook that still hands out an object ignored the failure
+    ignored = {}
+    for f, hr in zip(fscs, fres):
+        hans = hr[0]
         if f.copy_at < len(hans) and hans[f.copy_at].startswith("copy ok"):
-            raise vlib.CheckFailure("failcopy %d of scenario %s (%s) still succeeded: failure injection does not reach that acquisition" % (f.failcopy, f.tag, f.args.split()[0]))
+            ignored[f.kind] = ignored.get(f.kind, 0) + 1
+            if ignored[f.kind] <= 2:
+                ctx.violation("%s:failcopy:ignored-failure" % f.kind, "%s: acquisition %d inside sqfs_copy failed (allocation / dup / codec state) and the hook "
+                              "still returned an object: `%s` [scenario %s]" % (f.kind, f.failcopy, hans[f.copy_at][:200], f.tag), replay_dict(ctx, f, hr), found_input=True)
     allsc = scs + fscs
     allres = hres + fres
     # the models (hooks repaired / partly repaired / current) on the same scripts.  Allocation-failure variants: the k-th
@@ -926,6 +947,17 @@ def run(ctx):
             stats.setdefault("reported", {})[fk] = stats.setdefault("reported", {}).get(fk, 0) + 1
             if stats["reported"][fk] <= 2:
                 ctx.violation(key, what, replay_dict(ctx, s, hr), found_input=found)
+    # operations must have *succeeded* on copies, or equal answers say nothing: per kind, at least one successful answer of
+    # the copy after the copy was made
+    okpat = {"comp": r"blk [1-9]", "idtable": r"(add|get) 0 ", "fragtable": r"(append|lookup|set) 0", "file": r"read 0 ", "meta": r"read 0 ",
+             "dir": r"list 0 [1-9]", "data": r"read [1-9]", "xattr": r"readall 0 [1-9]", "xwr": r"flush 0 "}
+    okcount = {k: 0 for k in okpat}
+    for s, (hans, _) in zip(scs, hres):
+        if s.kind in okpat:
+            okcount[s.kind] += sum(1 for l, a in zip(s.lines, hans) if l.startswith("c ") and re.match(okpat[s.kind], a))
+    for k, v in okcount.items():
+        if v == 0:
+            raise vlib.CheckFailure("no operation on a copied %s object succeeded in this run: the comparison with the twin says nothing" % k)
     # hook descriptions against everything the probe saw
     dprob, dfacts = check_descriptions(ctx, scs, hres)
     for pr in dprob[:3]:
@@ -962,7 +994,7 @@ def run(ctx):
                 "(malloc/calloc/realloc, dup, deflateInit2/inflateInit, ZSTD_createCCtx); non-trivial = scenario that reached sqfs_copy" % (
                     ", ".join("%s/%d" % sp for sp in specs), MANYX),
         "scenarios": len(allsc), "alloc_failure_variants": len(fscs), "twin_comparisons": pair_checks, "view_relations_checked": view_checks,
-        "copies_ok": copies_ok, "copies_null": copies_null,
+        "copies_ok": copies_ok, "copies_null": copies_null, "successful_operations_on_copies": okcount,
         "table_answers_compared_with_model": ttotal, "copystate": cstat, "descriptions_vs_probe": dfacts,
         "scenarios_per_kind": stats["kinds"], "real_outcomes": stats["outcomes"], "classified": stats["findings"],
         "samples": [{"scenario": s.text()[:600], "exit": hr[1]} for s, hr in list(zip(allsc, allres))[:2] + list(zip(allsc, allres))[-1:]],
